@@ -50,7 +50,7 @@ claimed = {
    note="Honest scope: mostly a state machine over data; simulation contributes measured data (init sequence in virtual time), persistence and the restart/re-attach path. All-zero data: only range and configured-wins asserted; the measured minimum is not asserted.",
    tech="deterministic simulation (init sequence against a plant in virtual time) + reference limit derivation"),
  "C16": dict(cat="exploration", ref="§3/C16",
-   text="2-4 real controllers with an empty database start with seeded delays against fan plants of differing settle times; the seeded scheduler decides every interleaving of their file operations; analysis intervals on the kernel's event sequence must be pairwise disjoint when the option is false (overlap is demonstrably observable in the control group with the option true); 40% of the runs plant transient I/O faults inside an analysis. The lock hook parks a goroutine until the kernel observes the real mutex free (TryLock probe) and provides no exclusion itself, so removing or narrowing the real lock stays visible.",
+   text="2-4 real controllers with an empty database start with seeded delays against fan plants of differing settle times; the seeded scheduler decides every interleaving of their file operations; analysis intervals on the kernel's event sequence must be pairwise disjoint when the option is false (overlap is demonstrably observable in the control group with the option true); 40% of the runs plant transient I/O faults inside an analysis. The lock hook parks a goroutine until the kernel observes the real mutex free (TryLock probe) and provides no exclusion itself, so removing or narrowing the real lock stays visible. A second family runs the whole program (configuration file, real loader, validation, daemon) in a process of its own with the option written in 14 spellings of false: the loader may refuse a spelling, but a daemon that starts analyses one fan at a time.",
    note=L1NOTE+"An analysis event is a file operation on the fan issued from the PWM sweep or the initialisation sequence (by function name) or a PWM value written to the fan between the start of its controller and the start of its regulation (by window).",
    tech="deterministic simulation: seeded schedule search over concurrent initialisation sequences, interval-disjointness oracle"),
  "C03": dict(cat="exploration", ref="§3/C03",
@@ -78,8 +78,8 @@ claimed = {
    note="Crash points are enumerated exhaustively per sequence; sequences and client schedules are sampled. Process kill, not power loss (completed writes survive, no torn pwrite). The only seam inside a persistence operation is the yield point before the database is opened; inside the bbolt transaction the operations run atomically with respect to the simulator (bbolt's file lock serialises them in reality).",
    tech="model-based operation sequences + exhaustive crash-point injection per sequence (SIGKILL at syscall k via strace), fresh-process read-back; seeded client interleavings with a porcupine linearizability check"),
  "C18": dict(cat="exploration", ref="§3/C18",
-   text="As root the harness walks an executable and a configuration file through owner x group x all 512 modes x {direct, symlink} with real chown/chmod and calls the real cmd sensor, cmd fan and configuration validation at every point: the command's side-effect marker must grow exactly when the reference predicate holds and the file is executable, a rejected file must yield an error and leave no trace; thorough enumerates all 4096 attribute points (that sub-space exhaustively), quick samples 2048 draws. The configuration-file rule is exercised with three kinds of declaration (cmd sensor used by a curve, cmd sensor no curve uses, cmd fan). A closed loop with cmd backends has its scripts' attributes flipped between executions by environment events, and scripts held open for writing (text file busy) that lose root control when the writer lets go; every exec event is judged on the attributes in force at its check, and a command that ran must still be root-controlled when it returns.",
-   note="Runs as root. Flips never land between check and start of one execution (inherent check-then-exec window). The walk is OS-level attribute enumeration; only c18loop runs under the simulator.",
+   text="As root the harness walks an executable and a configuration file through owner x group x all 512 modes x {direct, symlink} with real chown/chmod and calls the real cmd sensor, cmd fan and configuration validation at every point: the command's side-effect marker must grow exactly when the reference predicate holds and the file is executable, a rejected file must yield an error and leave no trace; thorough enumerates all 4096 attribute points (that sub-space exhaustively), quick samples 2048 draws. The configuration-file rule is exercised with three kinds of declaration (cmd sensor used by a curve, cmd sensor no curve uses, cmd fan). A closed loop with cmd backends has its scripts' attributes flipped between executions by environment events, and scripts held open for writing (text file busy) that lose root control when the writer lets go; every exec event is judged on the attributes in force at its check, and a command that ran must still be root-controlled when it returns. A third family runs the real `fan2go -c <path> config validate` in a process of its own with the file reached directly, through a symbolic link, or through dir/link/../file (link a symbolic link to a directory, a root-controlled decoy at the lexically cleaned path): a document declaring a cmd sensor is accepted exactly when the file that was loaded is root-controlled.",
+   note="Runs as root. Flips never land between check and start of one execution (inherent check-then-exec window). The walk is OS-level attribute enumeration; only c18loop runs under the simulator (c18cfg: kernel-scheduled child, no faults).",
    tech="attribute-space enumeration with side-effect marker oracle + deterministic simulation with permission-flip events"),
  "C19": dict(cat="fault_enumeration", ref="§3/C19",
    text="Two enumerated fault spaces: (a) under the simulator, every command fault of the C09 list (start failures: not executable, bad format, vanished between permission check and start; exit codes; killed; garbage/nan/empty output; injected timeout) in every backend/curve combination with cmd components - no panic, the loop continues or the fan is restored; (b) on the REAL clock, util.SafeCmdExecution against 18 misbehaving-command modes x 4 timeouts (sleepers, SIGTERM-ignoring, grandchildren holding stdout, huge output, stderr flood, start failures, executables that cannot even be examined: path through a regular file, symbolic link to itself) - returns within timeout + 1.5 s with the trimmed output or an error, never panics; plus sampled real-clock families: several hanging and quick invocations of ONE executable at the same time (rt.c19conc) and 14-24 calls one after the other in one process (rt.c19seq: nothing may accumulate from call to call).",
